@@ -1,5 +1,6 @@
 import TLVerif.Acks.AcksBuildLemmas
 import TLVerif.Acks.AcksCanonLemmas
+import TLVerif.Acks.HeapLemmas
 /-!
 # C37 — UDP acknowledgement bookkeeping is exact
 
@@ -183,6 +184,19 @@ theorem haveHoles_exact (p0 : Nat) (ops : List (Nat × Nat)) (hp : p0 ≤ 429496
     exact ⟨n, m, h1, fun h => h2 ((set_eq_union p0 ops hp hw n).mpr h), (set_eq_union p0 ops hp hw m).mp h3⟩
   · rintro ⟨n, m, h1, h2, h3⟩
     exact ⟨n, m, h1, fun h => h2 ((set_eq_union p0 ops hp hw n).mp h), (set_eq_union p0 ops hp hw m).mpr h3⟩
+
+/-! ### Pointer level -/
+
+/-- The pointer-level model of `AddAckRange` (`Heap.lean`: node heap, `prevRange`/`tmpRange` cursors, in-place node
+mutation, `firstRange`/`prevRange.next` redirection — the model the correspondence run executes) read back as a list is
+the list-level model all theorems above are about.  For every history of `uint32` pairs, no guard. -/
+theorem heap_refines (p0 : Nat) (ops : List (Nat × Nat)) : (hRun (Heap.empty p0) ops).abs = after p0 ops :=
+  hRun_abs p0 ops
+
+/-- … and the heap stays a well-formed acyclic chain of distinct allocated nodes (so the fuel of the loops never runs out). -/
+theorem heap_wellformed (p0 : Nat) (ops : List (Nat × Nat)) :
+    HeapInv (hRun (Heap.empty p0) ops) (after p0 ops).ranges :=
+  (hRun_refines ops (Heap.empty p0) [] (heapInv_empty p0)).1
 
 /-! ### The guard is tight, and satisfiable -/
 
